@@ -838,6 +838,15 @@ func AccessPath(v ssa.Value) string {
 			}
 			return fmt.Sprintf("%s#%d", b, x.Index)
 		}
+		if l, ok := x.Tuple.(*ssa.Lookup); ok && x.Index == 0 {
+			return AccessPath(l)
+		}
+	case *ssa.Lookup:
+		base := AccessPath(x.X)
+		if base == "" {
+			return ""
+		}
+		return base + "[*]"
 	case *ssa.Alloc:
 		// a local variable: try to find the single store into it
 		if s := singleStore(x); s != nil {
